@@ -460,6 +460,17 @@ def explained_by_pop(script, vocab, ids, observed, stored):
     return sorted(set(observed)) == sim and sim != T.authz(script, vocab)['mirrorsite']
 
 
+def some_order_explains(script, vocab, observed):
+    """The stored order inside the collector's own reloaded topology cannot be read: is there an order of the mirror services
+    for which the pop() mechanism yields the observed (wrong) list?"""
+    import itertools
+    names = [s['name'] for s in script['services'] if s['nstype'] == 'PortMirror']
+    exp = T.authz(script, vocab)['mirrorsite']
+    if len(names) > 6 or sorted(set(observed)) == exp:
+        return False
+    return any(T.pop_simulation(script, list(p)) == sorted(set(observed)) for p in itertools.permutations(names))
+
+
 def judge_accounting(ctx, script, vocab, obs, text, wit, source):
     exp = T.accounting(script, vocab)
     ctx.count('clause:accounting' if source == 'topology' else 'clause:accounting-serialized')
@@ -580,8 +591,11 @@ def one_case(ctx, script, orders, vocab, ids, count_shapes=True):
                 ctx.count('clause:serialized')
                 for aid in diff_keys(cur, norm(a2)):
                     short = aid.rsplit(':', 1)[-1]
-                    ctx.violation(f'C11/topology-vs-serialized:{short}',
-                                  'collecting from the topology and from its serialized model gives the same attributes',
+                    key = f'C11/topology-vs-serialized:{short}'
+                    if aid == ids['mirrorsite'] and (some_order_explains(script, vocab, norm(a2).get(aid, [])) or
+                                                     some_order_explains(script, vocab, cur.get(aid, []))):
+                        key = MIRROR_KEY        # the reloaded model stores the services in another order
+                    ctx.violation(key, 'collecting from the topology and from its serialized model gives the same attributes',
                                   dict(wit, attribute=aid, from_topology=cur.get(aid), from_serialized=norm(a2).get(aid)))
                 obs2, text2 = observe_log(asm)
                 judge_accounting(ctx, script, vocab, obs2, text2, wit, 'serialized')
